@@ -158,6 +158,20 @@ class System:
         elif path == 'load':
             sim = {k: [None, v] for k, v in self.inp.items()}
             rel.load_data(sim, 1)
+        elif path in ('touched', 'touched-load'):
+            # inputs stored, read back through rel[...] (cache hits leave an
+            # access record: typical when one input is built from another),
+            # and only then frozen
+            for k, v in self.inp.items():
+                rel.data[k] = v
+            with gc.quiet():
+                for k in self.inp:
+                    rel[k]
+            if path == 'touched':
+                rel.freeze_data()
+            else:
+                sim = {k: [None, v] for k, v in self.inp.items()}
+                rel.load_data(sim, 1)
         elif path == 'late':
             # some requests first (on defaults), then inputs, then freeze:
             # derived entries present at that moment are frozen too
@@ -299,6 +313,8 @@ def plans(tier):
     periods = (1, 2, 3, 5, 20)
     thrs = ('always', 'mid', 'mid2', 'never')
     paths = ('freeze', 'load', 'late', 'over_time')
+    if tier != 'quick':
+        paths = paths + ('touched', 'touched-load')
     if tier == 'quick':
         i = 0
         for period in periods:
@@ -310,6 +326,12 @@ def plans(tier):
                     depth = 2
                     ops = ALPHABET if path != 'over_time' else SMALL
                     P.append(((period, thr, imp, shape, path), ops, depth))
+        for j, (period, thr) in enumerate(
+                [(1, 'always'), (2, 'mid'), (3, 'always'), (5, 'mid2'),
+                 (20, 'always'), (2, 'always')]):
+            P.append(((period, thr, imps[j % 4], shapes[1 + j % 3],
+                       'touched' if j % 2 == 0 else 'touched-load'),
+                      ALPHABET, 2))
         for cfgx in [(1, 'always', (), (4, 5, 6), 'freeze'),
                      (2, 'mid', imps[1], (2, 3, 4), 'load'),
                      (3, 'mid2', imps[2], (4, 5, 6), 'late'),
